@@ -79,7 +79,7 @@ def evolving_universe(ctx, rng, fam, k, steps, fault_rate=0.0):
             plan = ("evict", rng.choice([0, 2]))
         hist.append([F._jsonable(call), F._jsonable(plan)])
         pre = snap
-        ex = F.run_call(rec, ffam, call, F.Plan(plan), snaps_on=False)
+        ex = F.run_call(rec, ffam, call, F.Plan(plan), snaps_on=True)  # the hooks read every node's parent/children
         snap = rec.snapshot()
         probs = M.invariant(snap)
         if probs:
@@ -118,7 +118,7 @@ def replay_universe(case):
         else:
             call, plan = ent, ["none"]
         pre = rec.snapshot()
-        ex = F.run_call(rec, ffam, tup(call), F.Plan(tup(plan)), snaps_on=False)
+        ex = F.run_call(rec, ffam, tup(call), F.Plan(tup(plan)), snaps_on=True)
         snap = rec.snapshot()
         par, ch = [p for p, _ in snap], [list(c) for _, c in snap]
         if ex.outcome == "returned" and not ex.faults and not ex.evicted and not M.invariant(pre):
